@@ -344,6 +344,25 @@ func C14(tier string) int {
 		}
 	}
 
+	// ---- (3a) a 'type' member that names no type at all: nothing is invoked, the error is an unmatched one ----
+	for ji, tv := range []interface{}{L{}, L{1.0}, L{M{"id": "https://x.example/t"}}, 5.0, nil, M{}, true, "", L{nil}, L{L{"Note"}}, "note", " Note"} {
+		doc := jsonNorm(M{"@context": allContexts(o), "type": tv, "id": "https://x.example/v"}).(map[string]interface{})
+		res.Case(fmt.Sprintf("typeless-member|%d", ji))
+		rep := M{"check": "C14", "type_member": tv}
+		t, err := streams.ToType(ctx, doc)
+		if t != nil || !streams.IsUnmatchedErr(err) {
+			res.Violate("type-member-names-no-type|ToType", fmt.Sprintf("type %v: ToType returned %v, %v; expected no value and an unmatched error", short(tv), t, err), rep)
+		}
+		log := &cbLog{}
+		r, cerr := streams.NewJSONResolver(mkCallback(log, 0, bind.Type("ActivityStreams/Note"), nil), mkCallback(log, 1, bind.Type("ActivityStreams/Object"), nil))
+		if cerr == nil {
+			rerr := r.Resolve(ctx, doc)
+			if len(log.calls) != 0 || !streams.IsUnmatchedErr(rerr) {
+				res.Violate("type-member-names-no-type|JSONResolver", fmt.Sprintf("type %v: invoked %v, err %v; expected nothing invoked and an unmatched error", short(tv), log.calls, rerr), rep)
+			}
+		}
+	}
+
 	// ---- (3b) how the document names its vocabulary: plain @context entries and aliased ones ----
 	// (the library's alias form is {vocabulary URI: alias}; an aliased document writes "alias:Name")
 	swap := func(u string) string {
@@ -446,7 +465,7 @@ func C14(tier string) int {
 	}
 
 	res.Extra["types"] = len(keys)
-	res.Rule = fmt.Sprintf("(1) all %d x %d (value type, callback type) pairs for JSONResolver, TypeResolver and TypePredicatedResolver (predicate outcomes (true,nil),(false,nil),(false,err),(true,err)); (2) for every value type all callback lists of length 0..%d over {own, own returning an error, a parent, a child, a sibling, a similarly named foreign type, a foreign type}; (3) all 'type' arrays of length 1..3 over {Note, Person, Emoji, an unknown name, an unknown prefixed name} x 6 callback sets, with ToType as cross-check; (3b) every type written under 7 @context spellings (own vocabulary URI, the same with the other of http / https, in a list, aliased {URI: alias} alone / in a list / after another alias map / with a type array) through JSONResolver and ToType; (4) 13 wrong constructor shapes x 3 constructors; callbacks are manufactured with reflect.MakeFunc from the ontology-derived binding table; oracle: exactly the first own-type callback is invoked and its error returned by identity, else nothing is invoked and IsUnmatchedErr holds", len(keys), len(keys), maxLen)
+	res.Rule = fmt.Sprintf("(1) all %d x %d (value type, callback type) pairs for JSONResolver, TypeResolver and TypePredicatedResolver (predicate outcomes (true,nil),(false,nil),(false,err),(true,err)); (2) for every value type all callback lists of length 0..%d over {own, own returning an error, a parent, a child, a sibling, a similarly named foreign type, a foreign type}; (3) all 'type' arrays of length 1..3 over {Note, Person, Emoji, an unknown name, an unknown prefixed name} x 6 callback sets, with ToType as cross-check; (3a) 12 'type' members that name no type (empty array, arrays of non-strings, number, null, object, boolean, empty string, wrong case): nothing invoked, unmatched error; (3b) every type written under 7 @context spellings (own vocabulary URI, the same with the other of http / https, in a list, aliased {URI: alias} alone / in a list / after another alias map / with a type array) through JSONResolver and ToType; (4) 13 wrong constructor shapes x 3 constructors; callbacks are manufactured with reflect.MakeFunc from the ontology-derived binding table; oracle: exactly the first own-type callback is invoked and its error returned by identity, else nothing is invoked and IsUnmatchedErr holds", len(keys), len(keys), maxLen)
 	res.Assumptions = []string{"for a multi-valued 'type' the value's own type is the first entry that names a known type (ToType is required to agree)"}
 	return res.Finish()
 }
